@@ -7,6 +7,7 @@ PROOF_MODULES = ["VncProofs.C08", "VncProofs.C10", "VncProofs.C08Sys"]
 THEOREMS = ["Vnc.C08_advance_markers", "Vnc.C08_advance_writes", "Vnc.C08_closes_last", "Vnc.C08_pause", "Vnc.C08_timer_resumes",
             "Vnc.C08_commit_does_not_resume_timer", "Vnc.C08_delay", "Vnc.C10_sound", "Vnc.C08_sys_ordered", "Vnc.C08_sys_close_after_all", "Vnc.C08_sys_ordT"]
 TRUSTED = [
+    'VncSpec/Order.lean scriptOrdered (the checker C08_sys_ordered is about) is evaluated by the driver on every history observed on the real vncdo',
     "Lean 4.33 kernel; standard axioms only",
     "the executor of VncModel/Client.lean IS the abstraction of Twisted's Deferred chain as vncdo uses it (a callback that returns a Deferred suspends the chain until it fires; inlineCallbacks for mouseDrag; reactor.callLater ordering): validated by the correspondence run against the real vncdo() under a virtual clock, not proved",
     "the model is tied to command.py / client.py by that run: every write, marker, save, close and timer time of whole sessions",
